@@ -27,7 +27,7 @@ typedef var_opt_union<uint64_t> VU;
 const char* property_id() { return "C16"; }
 unsigned case_timeout_s() { return 300; }
 static const uint64_t NSTAT_QUICK = 10, NSTAT_THOROUGH = 20;
-uint64_t num_cases(bool thorough) { return thorough ? NSTAT_THOROUGH + 120000 : NSTAT_QUICK + 12000; }
+uint64_t num_cases(bool thorough) { return thorough ? NSTAT_THOROUGH + 200000 : NSTAT_QUICK + 12000; }
 void final_report() {}
 
 static const double REL = 1e-9;
@@ -93,7 +93,7 @@ struct WGen {
       case K_DYADIC_EXP: return std::exp2(static_cast<double>(r.range(-static_cast<int64_t>(p1), static_cast<int64_t>(p1))));
       case K_TAUADJ: {
         const double inf = std::numeric_limits<double>::infinity();
-        if (tau > 0 && r.chance(0.7)) {
+        if (tau > 0 && tau < 1e150 && r.chance(0.7)) {   // (bounded so that totals stay finite)
           switch (r.below(12)) {
             case 0: return tau;
             case 1: return std::nextafter(tau, inf);
